@@ -51,7 +51,8 @@ theorem containsRange_iff_forall_mem (s : List Span) (a l : Nat) (h : WF s) (hl 
     containsRange s a l = true ↔ ∀ x, a ≤ x → x < a + l → mem s x = true :=
   containsRange_iff hl ((wf_iff_chain s).1 h)
 
-example : containsRange [(0, 4), (5, 4)] 5 4 = true ∧ containsRange [(0, 4), (5, 4)] 3 2 = false := by decide
+example : WF [(0, 4), (5, 4)] ∧ containsRange [(0, 4), (5, 4)] 5 4 = true ∧ containsRange [(0, 4), (5, 4)] 3 2 = false :=
+  ⟨by simp [WF], by decide, by decide⟩
 
 /-- `len()` is the number of members (counted below any bound `N` that is beyond every span) -/
 theorem len_eq_card (s : List Span) (N : Nat) (h : WF s) (hN : ∀ sp ∈ s, sp.1 + sp.2 ≤ N) :
@@ -66,7 +67,9 @@ theorem mem_lt_bound (s : List Span) (N x : Nat) (hN : ∀ sp ∈ s, sp.1 + sp.2
   obtain ⟨sp, hsp, _, h2⟩ := hx
   have := hN sp hsp; omega
 
-example : len [(0, 4), (6, 4)] = ((List.range 10).filter (mem [(0, 4), (6, 4)])).length := by decide
+example : WF [(0, 4), (6, 4)] ∧ (∀ sp ∈ [((0, 4) : Span), (6, 4)], sp.1 + sp.2 ≤ 10) ∧
+    len [(0, 4), (6, 4)] = ((List.range 10).filter (mem [(0, 4), (6, 4)])).length :=
+  ⟨by simp [WF], by decide, by decide⟩
 
 /-! ### `self & other` -/
 
@@ -167,8 +170,9 @@ theorem get_some_bytes (s : List Chunk) (a l : Nat) (bs : List UInt8) (h : DInv 
     bs.length = l ∧ ∀ i, i < l → byteAt s (a + i) = bs[i]? :=
   dget_some h hg
 
-example : dget 1 3 [(0, [1, 2, 3, 4, 5]), (7, [9])] = some [2, 3, 4] ∧
-    dget 4 2 [(0, [1, 2, 3, 4, 5]), (7, [9])] = none ∧ dget 6 1 [(0, [1, 2, 3, 4, 5]), (7, [9])] = none := by decide
+example : DInv [(0, [1, 2, 3, 4, 5]), (7, [9])] ∧ dget 1 3 [(0, [1, 2, 3, 4, 5]), (7, [9])] = some [2, 3, 4] ∧
+    dget 4 2 [(0, [1, 2, 3, 4, 5]), (7, [9])] = none ∧ dget 6 1 [(0, [1, 2, 3, 4, 5]), (7, [9])] = none :=
+  ⟨by simp [DInv, DChain], by decide, by decide, by decide⟩
 
 /-- `pop` returns what `get` returns; it clears the range exactly when `get` answered, and keeps the invariant.
 (The code tests `if data:`; an empty answer only occurs for `l = 0`, where clearing is a no-op anyway.) -/
@@ -178,8 +182,9 @@ theorem pop_spec (s : List Chunk) (a l : Nat) (h : DInv s) :
       if (dget a l s).isSome = true ∧ a ≤ x ∧ x < a + l then none else byteAt s x :=
   ⟨dpop_fst s a l, (dpop_spec a l h).1, (dpop_spec a l h).2⟩
 
-example : dpop [(0, [1, 2, 3, 4, 5])] 1 2 = (some [2, 3], [(0, [1]), (3, [4, 5])]) ∧
-    dpop [(0, [1, 2, 3, 4, 5])] 4 2 = (none, [(0, [1, 2, 3, 4, 5])]) := by decide
+example : DInv [(0, [1, 2, 3, 4, 5])] ∧ dpop [(0, [1, 2, 3, 4, 5])] 1 2 = (some [2, 3], [(0, [1]), (3, [4, 5])]) ∧
+    dpop [(0, [1, 2, 3, 4, 5])] 4 2 = (none, [(0, [1, 2, 3, 4, 5])]) :=
+  ⟨by simp [DInv, DChain], by decide, by decide⟩
 
 /-- `len()` is the number of stored offsets (counted below any bound `N` beyond every chunk) -/
 theorem dlen_eq_card (s : List Chunk) (N : Nat) (h : DInv s) (hN : ∀ c ∈ s, c.1 + c.2.length ≤ N) :
@@ -192,7 +197,9 @@ theorem getSpans_mem (s : List Chunk) (x : Nat) (h : DInv s) :
     WF (getSpans s) ∧ mem (getSpans s) x = (byteAt s x).isSome :=
   ⟨chain_wf (getSpans_spec h x).1, (getSpans_spec h x).2⟩
 
-example : dlen [(0, [1, 2, 3]), (5, [9])] = 4 ∧ getSpans [(0, [1, 2, 3]), (5, [9])] = [(0, 3), (5, 1)] := by decide
+example : DInv [(0, [1, 2, 3]), (5, [9])] ∧ dlen [(0, [1, 2, 3]), (5, [9])] = 4 ∧
+    getSpans [(0, [1, 2, 3]), (5, [9])] = [(0, 3), (5, 1)] ∧ assertOk [(0, [1, 2, 3]), (5, [9])] = true :=
+  ⟨by simp [DInv, DChain], by decide, by decide, by decide⟩
 
 /-- Any history of `add` / `remove` / `pop` from the empty buffer: the invariant holds at the end and the
 stored bytes are the fold of the partial-map semantics (`dopSem`: later writes win) over the history.
@@ -205,6 +212,6 @@ theorem dspans_history (ops : List DOp) :
   rfl
 
 example : drun [] [DOp.add 0 [1, 2, 3, 4], DOp.add 6 [8, 8], DOp.add 3 [5, 5, 5], DOp.pop 1 2, DOp.remove 7 1] =
-    [(0, [1]), (3, [5, 5, 5])] := by decide
+    [(0, [1]), (3, [5, 5, 5, 8])] := by decide
 
 end Tahoe.C37
